@@ -55,6 +55,19 @@ CLAIMS = {
               "opcode in the three pending situations, and all short programs containing HALT, with idle cycles as events of their own."),
         design="5/C05", technique="TLA+ control-state spec + TLC MC (safety, liveness under weak fairness); TLC trace validation of recorded units incl. idle cycles",
         note="Wake-up latency with IME clear is accepted in 0..2 cycles; halt bug followed by CB/HALT and EI directly followed by HALT are not judged."),
+    "C06": dict(
+        category="model_checking",
+        text=("MemMap.tla classifies every address (plain, mirror, void, unmapped, masked register with stored / always-1 / unjudged bits, read-only, DMA) and the trace specification keeps a sparse shadow of the cells seen; "
+              "TLC checks the tables' sanity statically. Through Mapper.Read/Write only, from three start states, every I/O-page address and region boundary is written with every value (thorough) and read back, the bulk regions are swept, "
+              "random sequences are run, and TLC validates every read."),
+        design="5/C06", technique="TLA+ region/mask tables + TLC trace validation of recorded bus read-backs with a sparse shadow memory",
+        note="Cartridge areas, JOYP, SB/SC, sound registers are judged by their own properties; STAT bits 0-2 and time-dependent registers only by what the statement pins."),
+    "C07": dict(
+        category="model_checking",
+        text=("MemMap!Footprint gives, per written address, the set of addresses whose readable value may change. The harness reads all 64 KiB before and after a single write (no time passing) and TLC checks that every changed "
+              "address is in the footprint: every I/O-page address and region boundary x values plus random pairs, from randomised machine states."),
+        design="5/C07", technique="TLA+ footprint table + TLC trace validation of full-address-space diffs around single writes",
+        note="Together with C06's own-value check this gives plain-memory behaviour for arbitrary sequences by induction; timer side effects of DIV/TMA/TAC writes on TIMA are allowed by the table."),
     "C08": dict(
         category="model_checking",
         text=("MBC.tla gives each controller's register file and the functions from registers to the mapped ROM banks; TLC explores the complete register state graph of every kind under all control writes "
